@@ -1,6 +1,7 @@
 import MosnVerif.Drive.Util
 import MosnVerif.Model.ClusterPub
 import MosnVerif.Model.HostOps
+import MosnVerif.Model.PubVal
 /-!
 `hops <pol>/<p|s0|s1> <op;op;…> => <out;out;…>` (harness/c05/pub.go): operation lists on a cluster inside the real cluster
 manager. Model: `Model/HostOps` (regenerated list construction + `setFinalHost` rule) predicts the published set of host
@@ -54,6 +55,36 @@ def insideViews (outer handler : List MosnVerif.Gen.ClusterPub.CStep) : Option N
   let c := run (initConf prog 1) sched
   ((seen c 0).getD none, (seen c 2).getD none)
 
+/-- the windows of an update: after every publication (regenerated value program of the updater, `Model/PubVal.events`) the
+site of the store (0 snapshot cell, 1 clustersMap) and the value a reader sees. -/
+def windowsOf (kind : Char) : List (Nat × MosnVerif.Model.PubVal.Val) :=
+  open MosnVerif.Model.PubVal MosnVerif.Gen.PubVal MosnVerif.Gen.ClusterPub in
+  let prog := match kind.toLower with
+    | 'u' => expandV newSimpleHostHandlerV updateHostsMgr
+    | 'a' => expandV appendSimpleHostHandlerV updateHostsMgr
+    | 'r' => expandV removeHostsHandlerV updateHostsMgr
+    | 'p' => expandV primaryHandlerV updateCluster
+    | _ => expandV clusterAndHostHandlerV updateCluster
+  (events prog).map (fun p => ((if p.1 == .ctl .storeNew then 1 else 0), p.2))
+
+/-- one observed window `<site>:<set>:<lookup>` against the predicted one: (agrees, model text) -/
+def windowAgrees (old new : List H) (sick : List Nat) (pred : Nat × MosnVerif.Model.PubVal.Val) (obs : String) : Bool × String :=
+  let set? : Option (List H) := match pred.2 with
+    | .old => some old | .new => some new | .empty => some [] | _ => none
+  match set?, obs.splitOn ":" with
+  | some s, [site, set, look] =>
+    (site == toString pred.1 && set == showSet s && consistent s sick look, s!"{pred.1}:{showSet s}")
+  | some s, _ => (false, s!"{pred.1}:{showSet s}")
+  | none, _ => (false, s!"{pred.1}:unbuilt")
+
+/-- declarative: what a reader sees in a window is the complete old or the complete new set, and the lookup is a healthy
+member of that same set (none only if it has none). -/
+def windowSpec (oldA newA : List H) (sick : List Nat) (obs : String) : Bool :=
+  match obs.splitOn ":" with
+  | [_, set, look] =>
+    (set == showSet oldA && consistent oldA sick look) || (set == showSet newA && consistent newA sick look)
+  | _ => false
+
 structure St where
   cur : List H := []
   abs : Nat → Option H := fun _ => none
@@ -75,7 +106,7 @@ def updater (st : St) (kind : Char) (op : Op) (impl : String) : St :=
   let newA := absList abs'
   let st' := { st with cur := new, abs := abs' }
   match impl.splitOn "/" with
-  | [pre, post, set] =>
+  | [pre, post, set, win] =>
     let wrapped := kind.isUpper && kind != 'R'
     let (vp, vq) := match kind with
       | 'U' => insideViews updateHostsMgr newSimpleHostHandler
@@ -92,9 +123,15 @@ def updater (st : St) (kind : Char) (op : Op) (impl : String) : St :=
     let (a1, s1, m1) := okIn vp pre
     let (a2, s2, m2) := okIn vq post
     let mset := showSet new
-    { st' with outs := s!"{m1}/{m2}/{mset}" :: st.outs,
-               agree := st.agree && a1 && a2 && mset == set,
-               spec := st.spec && s1 && s2 && set == showSet newA }
+    let obs := if win == "none" then [] else win.splitOn "|"
+    let preds := windowsOf kind
+    let ws := (preds.zip obs).map (fun (p, o) => windowAgrees old new st.sick p o)
+    let aw := preds.length == obs.length && ws.all (·.1)
+    let mw := if preds.isEmpty then "none" else joinWith "|" (preds.map (fun p => (windowAgrees old new st.sick p "").2))
+    let sw := obs.all (windowSpec oldA newA st.sick)
+    { st' with outs := s!"{m1}/{m2}/{mset}/{mw}" :: st.outs,
+               agree := st.agree && a1 && a2 && mset == set && aw,
+               spec := st.spec && s1 && s2 && set == showSet newA && sw }
   | _ => { st' with outs := "?" :: st.outs, agree := false, spec := false }
 
 def lookup (st : St) (sub : String) (marker : Option Nat) (impl : String) : St :=
